@@ -28,7 +28,7 @@
  *  TMO    the configured timeout that applies without NONBLOCK */
 #define API_SYNC_COMMON(FOUND, REF, KIND, DATA, TMO)                                                       \
 /* lock discipline, heap, hold: on EVERY path the hold counter is what it was */                          \
-__CPROVER_ensures(VP_NO_LOCK_HELD && !g_pending)                                                           \
+__CPROVER_ensures(VP_NO_LOCK_HELD && !g_pending && g_random == OLD(g_random))                                \
 /* no hold granted: the protocol is never called, no aio is set up */                                      \
 __CPROVER_ensures(!(FOUND) ==> (g_op_calls == OLD(g_op_calls) && g_task_init == OLD(g_task_init) && g_fin_calls == OLD(g_fin_calls) && g_msg_taken == OLD(g_msg_taken))) \
 /* hold granted: exactly one operation, the right one, on the right object, outside every lock, while the hold is in place */ \
@@ -90,7 +90,7 @@ API_SOCK_LOOKUP_POST(1)
 API_SYNC_COMMON(API_SOCK_FOUND, g_sock->s_ref, VP_OP_SOCK_RECV, g_sock->s_data, g_sock->s_rcvtimeo)
 /* success: the caller gets the message the completion carried; failure: *msgp untouched */
 __CPROVER_ensures(RV == 0 ==> (API_SOCK_FOUND && g_fin_rv == 0 && __CPROVER_pointer_in_range_dfcc(g_rmsg, *msgp, g_rmsg)))
-__CPROVER_ensures(RV != 0 ==> VP_SAME_PTR(*msgp))
+__CPROVER_ensures(RV != 0 ==> *msgp == OLD(*msgp))
 __CPROVER_ensures(VP_HEAP_DELTA(0, 0) && g_msg_taken == OLD(g_msg_taken))
 ;
 
@@ -162,7 +162,7 @@ __CPROVER_assigns(*msgp)
 API_CTX_LOOKUP_POST(1)
 API_SYNC_COMMON(API_CTX_FOUND, g_ctx->c_ref, VP_OP_CTX_RECV, g_ctx->c_data, g_ctx->c_rcvtimeo)
 __CPROVER_ensures(RV == 0 ==> (API_CTX_FOUND && g_fin_rv == 0 && __CPROVER_pointer_in_range_dfcc(g_rmsg, *msgp, g_rmsg)))
-__CPROVER_ensures(RV != 0 ==> VP_SAME_PTR(*msgp))
+__CPROVER_ensures(RV != 0 ==> *msgp == OLD(*msgp))
 __CPROVER_ensures(VP_HEAP_DELTA(0, 0) && g_msg_taken == OLD(g_msg_taken))
 ;
 
@@ -203,7 +203,7 @@ __CPROVER_ensures(OLD(aio->a_timeout) != NNG_DURATION_DEFAULT ==> g_op_timeout =
 __CPROVER_ensures(g_op_use_expire == aio->a_use_expire && g_op_msg == OLD(aio->a_msg) && g_op_ref == (REF))                     \
 /* environment bookkeeping: this aio is now "the aio under study" of the aio.c stubs */                     \
 __CPROVER_ensures(g_self == aio && g_exp_node == &aio->a_expire_node && g_prov_node == &aio->a_prov_node && g_eq_list == &aio->a_expire_q->eq_list && g_eq_mtx == &aio->a_expire_q->eq_mtx && g_eq_cv == &aio->a_expire_q->eq_cv) \
-__CPROVER_ensures(g_task_addr == OLD(g_task_addr) && g_task_init == OLD(g_task_init) && g_task_fini == OLD(g_task_fini) && g_task_wait == OLD(g_task_wait) && g_blocked_waits == OLD(g_blocked_waits) && g_exp_on == OLD(g_exp_on) && g_id_calls == OLD(g_id_calls) && g_free_calls == OLD(g_free_calls) && g_alloc_ok == OLD(g_alloc_ok))                     \
+__CPROVER_ensures(g_task_addr == OLD(g_task_addr) && g_task_init == OLD(g_task_init) && g_task_fini == OLD(g_task_fini) && g_task_wait == OLD(g_task_wait) && g_blocked_waits == OLD(g_blocked_waits) && g_exp_on == OLD(g_exp_on) && g_random == OLD(g_random) && g_id_calls == OLD(g_id_calls) && g_id_key == OLD(g_id_key) && g_id_map == OLD(g_id_map) && g_close_wakes == OLD(g_close_wakes) && g_free_calls == OLD(g_free_calls) && g_alloc_ok == OLD(g_alloc_ok))                     \
 API_OP_POST(aio, SENDKIND)
 
 void nni_sock_send(nni_sock *sock, nni_aio *aio)
